@@ -78,9 +78,11 @@ def expected_by_count(ops, fam):
     return cnt
 
 
-def check_concurrent(exe, v, cases, workdir, stats):
+def check_concurrent(exe, v, cases, workdir, stats, tag="q", outs_ret=None):
     name, kind, fam = vinfo(v)
-    rc, outs, raw = C15.run_harness(exe, cases, workdir, "q%d" % v)
+    rc, outs, raw = C15.run_harness(exe, cases, workdir, "%s%d" % (tag, v))
+    if outs_ret is not None:
+        outs_ret.update(outs)
     st = stats.setdefault(v, {"name": name, "concurrent_cases": 0, "finished": 0, "hangs": 0, "fuel": 0, "quiescent_points": 0, "sequential_ops": 0,
                               "max_items": 0, "routing_leftover_after_concurrent": 0, "struct_checks": {}, "shape_compared": 0})
     viol = []
@@ -161,6 +163,64 @@ def split_quiescent(o):
         if not ok:
             bad.append(("structural check %s fails at a quiescent point" % nm, {"detail": detail}))
     return bad
+
+
+# ---------------------------------------------------------------------------------------------------------
+# systematic single-preemption sweep around node re-use (lists first)
+
+SWEEP_VARIANTS_QUICK = {102: 40, 105: 14, 122: 10, 100: 8, 101: 8, 110: 6, 111: 6}
+SWEEP_VARIANTS_THOROUGH = {102: 300, 105: 120, 122: 80, 100: 60, 101: 60, 103: 30, 104: 30, 110: 40, 111: 40, 112: 20, 113: 20,
+                           120: 30, 121: 30, 123: 30, 60: 30, 0: 30, 2: 30}
+
+
+def gen_sweep_program(rng, v, idx):
+    """prefill with present keys and with keys inserted and erased again (re-usable empty nodes / leftovers);
+    thread A: one update; thread B: 2-4 updates on neighbouring keys (insert re-using, insert in front, erase)"""
+    if idx == 0:      # the shape of seeded/C18a: 1, E(5), 7 ; A insert 3 ; B insert 5, insert 4, erase 5
+        present, erased = [1, 7], [5]
+        a_ops = [[1, 3, 33, 0]]
+        b_ops = [[1, 5, 55, 0], [1, 4, 44, 0], [6, 5, 0, 0]]
+    else:
+        keys = list(range(8))
+        erased = sorted(set(rng.choice(keys) for _ in range(1 + rng.below(2))))
+        rest = [k for k in keys if k not in erased]
+        present = sorted(set(rng.choice(rest) for _ in range(1 + rng.below(3))))
+        ka = rng.below(8)
+        a_ops = [[rng.choice([1, 1, 4, 6, 3]), ka, 10 + rng.below(80), 0]]
+        near = [k for k in keys if abs(k - ka) <= 3] + erased + erased
+        b_ops = [[rng.choice([1, 1, 4, 6, 6]), rng.choice(near), 10 + rng.below(80), 0] for _ in range(2 + rng.below(3))]
+    mask = sum(1 << k for k in present + erased)
+    emask = sum(1 << k for k in erased)
+    return {"cfg": [v, mask] + [0] * 8 + [0, emask], "threads": [a_ops, b_ops], "variant": v}
+
+
+def preemption_sweep(exe, v, nprog, rng, workdir, stats):
+    """for every program and EVERY switch point i: A runs i scheduled steps, B runs to completion, A completes; and the
+    symmetric schedule.  Quiescent probes after each run."""
+    name, kind, fam = vinfo(v)
+    progs = [gen_sweep_program(rng, v, i) for i in range(nprog)]
+    # phase 1: solo runs give the number of scheduled steps of each thread
+    solo = []
+    for i, pr in enumerate(progs):
+        solo.append(dict(pr, id="w%d_%d_a" % (v, i), sched=[0] * 6000))
+        solo.append(dict(pr, id="w%d_%d_b" % (v, i), sched=[1] * 6000))
+    outs = {}
+    viol = check_concurrent(exe, v, solo, workdir, stats, tag="w1_", outs_ret=outs)
+    cases = []
+    for i, pr in enumerate(progs):
+        oa, ob = outs.get("w%d_%d_a" % (v, i)), outs.get("w%d_%d_b" % (v, i))
+        if not oa or not ob or "tsteps" not in oa["mon"] or "tsteps" not in ob["mon"]:
+            continue
+        na, nb = int(oa["mon"]["tsteps"][0]), int(ob["mon"]["tsteps"][1])
+        for j in range(1, na):
+            cases.append(dict(pr, id="w%d_%d_A%d" % (v, i, j), sched=[0] * j + [1] * 6000))
+        for j in range(1, nb):
+            cases.append(dict(pr, id="w%d_%d_B%d" % (v, i, j), sched=[1] * j + [0] * 6000))
+    viol += check_concurrent(exe, v, cases, workdir, stats, tag="w2_")
+    st = stats[v]
+    st["sweep_programs"] = st.get("sweep_programs", 0) + len(progs)
+    st["sweep_switch_points"] = st.get("sweep_switch_points", 0) + len(cases)
+    return [(w.replace("(after a concurrent history)", "(after a concurrent history, single-preemption sweep)"), o, sg) for (w, o, sg) in viol]
 
 
 # ---------------------------------------------------------------------------------------------------------
@@ -486,6 +546,11 @@ def run(ctx):
             futs.append(ex.submit(check_sequential, exe, v, seqc, ctx.work, stats, shape_model))
         for f in futs:
             viol += f.result()
+        futs = []
+        for v, nprog in sorted((SWEEP_VARIANTS_THOROUGH if ctx.thorough() else SWEEP_VARIANTS_QUICK).items()):
+            futs.append(ex.submit(preemption_sweep, exe_for(exes15, exes18, v), v, nprog, ctx.rng.fork(), ctx.work, stats))
+        for f in futs:
+            viol += f.result()
     report(ctx, viol)
     C15.report_hangs(ctx, stats)
     if not res.ok:
@@ -498,6 +563,10 @@ def run(ctx):
                 "sequential histories; all are non-trivial in the sense that the full set of checks (exact traversal, size/empty, structural walk) is evaluated",
         "quiescent_points_after_concurrent_histories": tot("finished"), "quiescent_points_after_sequential_operations": tot("sequential_ops"),
         "shape_comparisons_with_coq_models": tot("shape_compared"),
+        "single_preemption_sweep": {"programs": sum(d.get("sweep_programs", 0) for d in per.values()),
+                                    "switch_points_run": sum(d.get("sweep_switch_points", 0) for d in per.values()),
+                                    "rule": "2-thread programs around node re-use (prefill incl. keys inserted and erased again; A = one update, B = 2-4 updates on "
+                                            "neighbouring keys); for every program EVERY switch point: A runs i steps, B to completion, A completes, and the symmetric schedule"},
         "per_variant": per, "corpus_cases": len(corpus),
         "samples": [{k: x for k, x in jobs[0][2][0].items()}],
         "variants": {str(v): vinfo(v)[0] for v in variants},
